@@ -305,10 +305,40 @@ class FileSplicer:
         closures = self.find_closures(it)
         for s in subs:
             if s.word == 'closure':
-                ci = int(s.args[0])
-                if ci >= len(closures):
-                    raise SpliceError('lost anchor: fn %s closure %d (has %d)' % (key, ci, len(closures)))
-                (p_open, p_close, b_start, b_end, is_block) = closures[ci]
+                sel = s.args[0]
+                if sel.startswith('in:'):
+                    # the closure passed (as first closure argument) to the k-th call of `.method(`: `in:method` or `in:method#k`
+                    mname, _, kk = sel[3:].partition('#')
+                    kk = int(kk) if kk else 0
+                    cands = []
+                    for c in closures:
+                        q = c[0] - 1
+                        # walk back over preceding arguments to the call's '('
+                        depth_ok = False
+                        while q > it.body_open:
+                            t = src.t(q)
+                            if t.kind == 'punct' and t.text in CLOSE: q = src.match(q) - 1; continue
+                            if t.kind == 'punct' and t.text == '(':
+                                depth_ok = True; break
+                            if t.kind == 'punct' and t.text in ('{', ';'): break
+                            q -= 1
+                        if depth_ok:
+                            nm = q - 1
+                            if src.is_p(nm, '>'):      # turbofish
+                                while not src.is_p(nm, '<'): nm -= 1
+                                nm -= 3
+                            if src.is_id(nm, mname): cands.append(c)
+                    if kk >= len(cands):
+                        # the call no longer takes a closure (e.g. a fn item is passed): the contract that was attached to the
+                        # closure is dropped; whatever depended on it now fails as an ordinary obligation of this function
+                        self.report['file_rules'].append({'file': self.fs.path, 'rule': 'note', 'text': 'fn %s: no closure passed to %s (#%d); closure contract not applied' % (key, mname, kk)})
+                        continue
+                    (p_open, p_close, b_start, b_end, is_block) = cands[kk]
+                else:
+                    ci = int(sel)
+                    if ci >= len(closures):
+                        raise SpliceError('lost anchor: fn %s closure %d (has %d)' % (key, ci, len(closures)))
+                    (p_open, p_close, b_start, b_end, is_block) = closures[ci]
                 kv = dict(a.split('=', 1) for a in s.args[1:] if '=' in a)
                 if 'params' in kv:
                     self.ed.replace(src.t(p_open).end, src.t(p_close).start, kv['params']); applied.append('N6')
